@@ -17,7 +17,8 @@ META = dict(
               "many / allow_changes (symbolic); main(): all 16 subsets of {-i, -o, -c, -m} x short/long spelling x 3 "
               "argument orders with distinct constants as values; error paths: the API call that fails (load / dump / none) x six "
               "exception types incl. the API's own x output file pre-existing or not: the exception object escapes as it is, "
-              "nothing is retried, and convert() leaves input and pre-existing output untouched (real temporary directory)",
+              "nothing is retried, and convert() leaves input and pre-existing output untouched (real temporary directory); the same "
+              "through main(): an API error ends the run with an exception or a non-zero SystemExit, never a normal return",
         thorough="same"),
     outside=["the subprocess / console-script entry point and Python's exit status for an escaping exception (trusted)",
              "argparse internals", "np.seterr(..., 'raise') in main() can only turn a success into a failure",
